@@ -37,7 +37,7 @@ pub struct Case {
     pub first_relation: Option<u64>,
 }
 
-pub const BUDGET: usize = 3_000_000;
+pub const BUDGET: usize = 8_000_000;
 
 pub fn jop(max_fill: usize) -> BoxedStrategy<JOp> {
     prop_oneof![
@@ -120,11 +120,7 @@ pub fn check(c: &Case) -> CheckResult {
             match op {
                 JOp::U32 => format!("{:#010x}", j.next_u32()),
                 JOp::U64 => format!("{:#018x}", j.next_u64()),
-                JOp::Fill(n) => {
-                    let mut b = vec![0u8; *n];
-                    j.fill(&mut b);
-                    crate::hexser::hex(&b)
-                }
+                JOp::Fill(n) => crate::hexser::hex(&crate::ops::fill_unaligned(j, *n)),
                 JOp::Stats(v) => format!("{}", j.jitter().unwrap().timer_stats(*v)),
                 JOp::Rounds(r) => {
                     j.jitter().unwrap().set_rounds(*r);
@@ -266,11 +262,13 @@ pub fn def(ctx: &Ctx) -> PropDef {
         subs.push(PSub::boxed(format!("history/{}", part), t.pick(1500, 150_000), move || strategy(max_ops), check));
     }
     // very long stuck runs (retry counters of any width up to 2^16 wrap), then recovery
+    let thorough = t == crate::engine::Tier::Thorough;
     subs.push(PSub::boxed(
         "long-stuck",
         t.pick(3, 12),
-        || {
-            (1u64..=1_000_000, prop_oneof![Just(300usize), Just(800usize), Just(70_000usize)], 1u8..=3, any::<u64>(), any::<bool>())
+        move || {
+            let sizes = if thorough { prop_oneof![Just(300usize), Just(800usize), Just(70_000usize), Just(1_100_000usize)].boxed() } else { prop_oneof![Just(300usize), Just(800usize), Just(70_000usize)].boxed() };
+            (1u64..=1_000_000, sizes, 1u8..=3, any::<u64>(), any::<bool>())
                 .prop_map(|(start, stuck, rounds, salt, zero)| Case {
                     prog: TimerProg { start, segs: vec![gens::Seg::Jitter { n: 9, lo: 50, spread: 40 }, if zero { gens::Seg::Zero { n: 3 * stuck } } else { gens::Seg::Equal { n: 3 * stuck, d: 7 } }], salt },
                     rounds0: Some(rounds),
